@@ -54,7 +54,7 @@ RULE = ("Hypothesis cases: one of the 19 concrete Distribution classes (checked 
         "boundary (p = 0, p = 1, mode = lo, mode = hi, one-/two-sided/zero-bounded truncation) x a seeded "
         "MersenneTwister or a scripted stream (finite prefix of extreme and arbitrary uniforms in [0,1), then a "
         "seeded tail, hard budget) x scenario twin / interleave / repoint (chains, also back to the same stream) / "
-        "replay of the recorded stream output / quantity wrapper; ~12% of the cases carry an invalid parameter set "
+        "replay of the recorded stream output / quantity wrapper; 1 in 8 cases carries an invalid parameter set "
         "(wrong type, <= 0, outside [0,1], lo >= hi, mode outside, too improbable truncation, bad stream). "
         "Enumerated sub-domain: every class x boundary parameter sets x every extreme uniform at the 1st/2nd/3rd "
         "position and doubled; every (class, parameter, invalid alternative); every QuantityDist subclass x every "
@@ -894,12 +894,11 @@ def strategy(tier):
         params = draw(_valid_params(cname))
         c = {"cls": cname, "params": params, "bad_stream": False,
              "stream": draw(_stream_spec()), "n": draw(st.integers(1, nmax))}
-        roll = draw(st.integers(0, 99))
-        if roll < 12:
+        if draw(st.sampled_from([True] + [False] * 7)):
             # spoil one parameter (or a relation, or the stream)
             c["scen"] = "twin"
             rel = _relational_invalid(cname)
-            how = draw(st.integers(0, 9))
+            how = draw(st.sampled_from([0, 1, 2, 3, 4, 5, 6, 7, 8, 9]))
             if how == 0:
                 c["bad_stream"] = True
             elif how <= 2 and rel:
@@ -913,7 +912,7 @@ def strategy(tier):
                                      "repoint", "repoint", "replay", "wrapper"]))
         c["scen"] = scen
         if scen == "interleave":
-            o = draw(st.integers(0, 3))
+            o = draw(st.sampled_from([0, 1, 2, 3]))
             if o <= 1:
                 c["other"] = "same"
             else:
@@ -929,7 +928,7 @@ def strategy(tier):
         elif scen == "replay":
             c["stream"] = {"k": "mt", "seed": draw(st.integers(0, 2 ** 32))}
         elif scen == "wrapper":
-            c["wrapper"] = [draw(st.integers(-1, 60)), draw(st.integers(0, 60))]
+            c["wrapper"] = [draw(st.sampled_from(list(range(-1, 41)))), draw(st.integers(0, 60))]
         return c
 
     return case()
